@@ -3,6 +3,9 @@ C06: exactly one matching reply per request, in request order -- the real `enip_
 vs Cpppo.Session.serve (Lean).
 
 A case = {"budget", "tags", "route", "rand", "cuts", "frames": [frame, …]}
+      or {…, "routes": [[port, link], …], "sessions": [[frame, …], …]}   (connections served one after the other on the
+         same device and UCMM; "routes" = UCMM routing table entries, each leading -- over a real TCP connection made by
+         the UCMM's own client -- to an EtherNet/IP server in this process that serves the same objects)
   route  = None (UCMM.route_path None: any) | False | [[port, link], …]
   rand   = the values `random.randint` delivers to UCMM.request (Register Session)
   cuts   = "one" (the whole stream in one recv: every request is written before any reply is read)
@@ -31,7 +34,7 @@ from corr import logix_common as lc
 from corr import logix_gen as lg
 from corr.c03 import rand_req
 
-ADDR = ("127.0.0.1", 44444)
+ADDR = ("127.0.0.9", 44444)      # the peer address of the scripted connection: never that of a real local socket
 CMD = {"reg": 0x65, "regshort": 0x65, "unreg": 0x66, "ls": 0x04, "li": 0x63, "lf": 0x64, "lg": 0x01}
 KNOWN_CMDS = (0x01, 0x04, 0x63, 0x64, 0x65, 0x66, 0x6f, 0x70)
 SUPPORTED = (0x01, 0x03, 0x0a, 0x0e, 0x10, 0x4c, 0x4d, 0x52, 0x53)
@@ -189,6 +192,58 @@ def split_frames(stream):
     return out
 
 
+def sessions_of(case):
+    return case["sessions"] if "sessions" in case else [case["frames"]]
+
+
+class Target:
+    """The device at the far end of every routing-table entry: a listening socket in this process; each accepted
+    connection is served by the real `enip_srv_tcp` on a thread, with the keywords of the current Rig (same
+    objects, same UCMM: like cpppo's simulator routing to itself)."""
+    sock = None
+    kwds = None
+    threads = []
+    conns = []
+
+    @classmethod
+    def address(cls):
+        if cls.sock is None:
+            cls.sock = socket.socket(socket.AF_INET, socket.SOCK_STREAM)
+            cls.sock.bind(("127.0.0.1", 0))
+            cls.sock.listen(16)
+            threading.Thread(target=cls.accept_loop, daemon=True).start()
+        return cls.sock.getsockname()
+
+    @classmethod
+    def accept_loop(cls):
+        from cpppo.server.enip import main as emain, logix
+        while True:
+            conn, addr = cls.sock.accept()
+            conn.setsockopt(socket.IPPROTO_TCP, socket.TCP_NODELAY, 1)
+
+            def run(conn=conn, addr=addr, kwds=cls.kwds):
+                try:
+                    emain.enip_srv_tcp(conn, addr, "enip_c06t", logix.process, **kwds)
+                except Exception:
+                    pass
+                finally:
+                    conn.close()
+            t = threading.Thread(target=run, daemon=True)
+            cls.threads.append(t)
+            cls.conns.append(conn)
+            t.start()
+
+    @classmethod
+    def quiesce(cls):
+        """after the UCMM's route connections are closed: every serving thread ends"""
+        for t in cls.threads:
+            t.join(5)
+        hung = [t for t in cls.threads if t.is_alive()]
+        cls.threads = hung
+        cls.conns = []
+        return not hung
+
+
 class Rig:
     """the real simulator prepared for one case: tags, UCMM personality, scripted random source"""
 
@@ -202,11 +257,14 @@ class Rig:
         case["tagline"] = self.dev.tag_line(case)
         logix.setup_reset()                  # the UCMM is created by the first process(), as main() arranges it
         route = case["route"]
-        if route is None:
-            self.ucmm_class = ucmm.UCMM
-        else:
-            rp = [{"port": p, "link": l} for p, l in route] if route else False
-            self.ucmm_class = type("UCMM_routed", (ucmm.UCMM,), {"route_path": rp})
+        attrs = {}
+        if route is not None:
+            attrs["route_path"] = [{"port": p, "link": l} for p, l in route] if route else False
+        self.routes = case.get("routes") or []
+        if self.routes:
+            host, port = Target.address()
+            attrs["route"] = {f"{p}/{l}": f"{host}:{port}" for p, l in self.routes}
+        self.ucmm_class = type("UCMM_case", (ucmm.UCMM,), attrs) if attrs else ucmm.UCMM
         ucmm.UCMM.sessions.clear()
         self.saved_random = ucmm.random
         ucmm.random = ScriptedRandom(case["rand"])
@@ -217,8 +275,24 @@ class Rig:
         control["disable"] = False
         control["latency"] = 0.01
         self.kwds = {"server": cpppo.dotdict({"control": control}), "UCMM_class": self.ucmm_class}
+        Target.kwds = self.kwds
 
     def close(self):
+        if self.routes:
+            u = self.logix.setup.ucmm
+            for conn in list(getattr(u, "route_conn", {}).values()) if u is not None else []:
+                try:
+                    conn.close()
+                except Exception:
+                    pass
+            if u is not None:
+                u.route_conn.clear()
+            for c in Target.conns:          # a connection the UCMM forgot without closing it
+                try:
+                    c.shutdown(socket.SHUT_RDWR)
+                except OSError:
+                    pass
+            Target.quiesce()
         self.ucmm.random = self.saved_random
         self.network.recv = self.saved_recv
         self.dev.close()
@@ -232,6 +306,8 @@ class Rig:
         conn = FakeConn(chunks)
 
         def fake_recv(c, maxlen=4096, timeout=0):
+            if not isinstance(c, FakeConn):          # the route target's real socket
+                return self.saved_recv(c, maxlen, timeout=timeout)
             if c.chunks:
                 return c.chunks.pop(0)
             c.eof_delivered = True
@@ -329,18 +405,28 @@ def chunks_of(case, frames):
 
 def run_case(case, sockets=False):
     logging.disable(logging.CRITICAL)
-    frames = [frame_bytes(fr) for fr in case["frames"]]
-    rig = Rig(case)
-    try:
-        sent, n, end = rig.tcp([b"".join(frames)])
-        first = show_run(sent, n, end, rig.tail())
-    finally:
-        rig.close()
-    rig = Rig(case)
-    try:
-        second = show_run(*rig.single(frames), rig.tail())
-    finally:
-        rig.close()
+    sessions = [[frame_bytes(fr) for fr in frames] for frames in sessions_of(case)]
+
+    def drive(mode):
+        rig = Rig(case)
+        try:
+            runs = []
+            for frames in sessions:
+                if mode == "one":
+                    sent, n, end = rig.tcp([b"".join(frames)])
+                elif mode == "single":
+                    sent, n, end = rig.single(frames)
+                elif mode == "cuts":
+                    sent, n, end = rig.tcp(chunks_of(case, frames))
+                else:
+                    sent, n, end = rig.sockets(b"".join(frames))
+                runs.append((sent, n, end, rig.tail()))
+            return runs
+        finally:
+            rig.close()
+    one = drive("one")
+    first = " // ".join(show_run(*r) for r in one)
+    second = " // ".join(show_run(*r) for r in drive("single"))
     # other deliveries of the same stream must give the same replies
     modes = []
     if case.get("cuts", "one") != "one":
@@ -349,16 +435,10 @@ def run_case(case, sockets=False):
         modes.append("sockets")
     same = "same"
     for m in modes:
-        rig = Rig(case)
-        try:
-            if m == "cuts":
-                s2, n2, e2 = rig.tcp(chunks_of(case, frames))
-            else:
-                s2, n2, e2 = rig.sockets(b"".join(frames))
-                e2 = end if e2 == "ok" else e2
-            other = show_run(s2, n2, e2, rig.tail())
-        finally:
-            rig.close()
+        runs = drive(m)
+        if m == "sockets":
+            runs = [(s2, n2, (r1[2] if e2 == "ok" else e2), t2) for (s2, n2, e2, t2), r1 in zip(runs, one)]
+        other = " // ".join(show_run(*r) for r in runs)
         if other != first:
             same = f"{m}-differs:{other}"
             break
@@ -429,9 +509,33 @@ def rand_send(rng, tags, route_cfg, fail):
         ])
         return body
     body["req"] = rand_req(rng, tags, multi=True, invalid=0.2)
+    if rng.random() < 0.06 + fail * 0.3:
+        # attribute services (and bundles holding them) addressed to an unknown Class / Instance / Attribute
+        lost = rand_lost_attr(rng, tags)
+        if rng.random() < 0.5:
+            members = [rand_req(rng, tags, multi=False, invalid=0.2) for _ in range(rng.randint(0, 3))]
+            members.insert(rng.randint(0, len(members)), lost)
+            if rng.random() < 0.4:
+                members.insert(rng.randint(0, len(members)), rand_lost_attr(rng, tags))
+            body["req"] = {"op": "mu", "path": [["c", 2], ["i", 1]], "reqs": members}
+        else:
+            body["req"] = lost
     if body["req"]["op"] == "rf" and body["wrap"] is None:      # a bare 0x52 is read as an Unconnected Send
         body["wrap"] = {"cls": 6, "ins": 1, "prio": 5, "ticks": 157, "route": []}
     return body
+
+
+def rand_lost_attr(rng, tags):
+    """Get/Set Attribute Single / Get Attributes All whose path names no existing Object or Attribute"""
+    addrs = [t["addr"] for t in tags if t.get("addr")]
+    c, i, a = rng.choice([[0x77, 1, 1], [0x93, 99, 7], [300, 7, 1], [0x401, 1, 200], [2, 99, 1], [2, 1, 250]]
+                         + [[x[0], x[1] + 40, x[2]] for x in addrs] + [[x[0], x[1], x[2] + 100] for x in addrs])
+    op = rng.choice(["gs", "gs", "ss", "ga"])
+    if op == "ga":
+        return {"op": "ga", "path": [["c", c], ["i", i]]}
+    if op == "ss":
+        return {"op": "ss", "path": [["c", c], ["i", i], ["a", a]], "data": [rng.randrange(256) for _ in range(rng.choice([1, 2, 4]))]}
+    return {"op": "gs", "path": [["c", c], ["i", i], ["a", a]]}
 
 
 def rand_items(rng):
@@ -496,6 +600,112 @@ def rand_case(rng, nmax=40, big=False):
         cuts = sorted(rng.randrange(1, max(total, 2)) for _ in range(rng.randint(1, 6)))
     return {"budget": rng.choice([488, 488, 488, 100, 24]), "tags": tags, "route": route, "rand": rand, "cuts": cuts,
             "frames": frames}
+
+
+TABLE = [[1, 9]]                     # the routing table used by the routed cases: port 1, link 9 --> the route's device
+
+
+def routed_wrap(rest, cls=6, ins=1):
+    # priority/ticks give the forwarding UCMM a timeout of 2^5 * 157 ms: the route's device always answers in time
+    return {"cls": cls, "ins": ins, "prio": 5, "ticks": 157, "route": [list(TABLE[0])] + [list(x) for x in rest]}
+
+
+def routed_kinds(tags):
+    """requests forwarded through the routing table (succeeding and failing) and local ones"""
+    a = tags[0]["name"]
+
+    def send(req=None, unk=None, wrap=None):
+        b = {"k": "send", "unit": False, "iface": 0, "timeout": 5, "wrap": wrap}
+        if req is not None:
+            b["req"] = req
+        else:
+            b["unk"] = unk
+        return b
+    rd = {"op": "rt", "path": [["s", a]], "n": 1}
+    wr = {"op": "wt", "path": [["s", a], ["e", 1]], "ty": 0xc3, "n": 1, "vals": [7]}
+    return {
+        "r-read": send(rd, wrap=routed_wrap([])),
+        "r-write": send(wr, wrap=routed_wrap([])),
+        "r-read-on": send({"op": "rf", "path": [["s", a]], "n": 2, "off": 0}, wrap=routed_wrap([[1, 0]])),
+        "r-gas-lost": send({"op": "gs", "path": [["c", 0x77], ["i", 1], ["a", 1]]}, wrap=routed_wrap([])),
+        "r-unknown-svc": send(unk={"code": 0x77, "path": [["c", 2], ["i", 1]], "tail": [1, 0]}, wrap=routed_wrap([])),
+        "r-bad-rest": send(rd, wrap=routed_wrap([[3, 3]])),
+        "r-bad-send-path": send(wr, wrap=routed_wrap([[1, 0]], cls=2)),
+        "l-read": send(rd, wrap={"cls": 6, "ins": 1, "prio": 5, "ticks": 157, "route": [[1, 0]]}),
+        "l-unknown-svc": send(unk={"code": 0x77, "path": [["c", 2], ["i", 1]], "tail": []}, wrap=None),
+        "reg": {"k": "reg", "proto": 1, "opts": 0, "extra": []},
+    }
+
+
+def routed_small_cases(full=True):
+    """every sequence of up to three one-request connections over the routed kinds (quick: up to two, and the triples
+    good - failing - good), and pairs written together"""
+    import itertools
+    tags = [{"name": "A", "type": "INT", "len": 4, "addr": None}]
+    kinds = routed_kinds(tags)
+    core = ["r-read", "r-write", "r-read-on", "r-unknown-svc", "r-bad-rest", "l-read"]
+    n = [0]
+
+    def frame(body):
+        n[0] += 1
+        return {"sess": 0x5000 + n[0], "status": 0, "ctx": struct.pack("<II", 0xC0DE0000 + n[0], n[0]).hex(), "opt": 0,
+                "body": body}
+
+    def case(sessions, rand=(11, 12, 13, 14, 15, 16)):
+        return {"budget": 488, "tags": tags, "route": [[1, 0]], "routes": TABLE, "rand": list(rand), "cuts": "one",
+                "sessions": sessions}
+    for k in kinds:
+        yield case([[frame(kinds[k])]])
+    for ln in (2, 3):
+        for seq in itertools.product(core, repeat=ln):
+            if full or ln == 2 or (seq[0] in ("r-read", "r-write") and seq[1] in ("r-unknown-svc", "r-bad-rest")
+                                   and seq[2] in ("r-read", "r-write")):
+                yield case([[frame(kinds[k])] for k in seq])
+    for ka in ("r-read", "r-write", "r-gas-lost", "r-bad-send-path", "reg"):
+        for kb in ("r-read", "r-write", "l-read", "r-unknown-svc"):
+            yield case([[frame(kinds[ka]), frame(kinds[kb])], [frame(kinds["r-write"]), frame(kinds["r-read"])]])
+    # the random source cannot give the forwarding connection a session handle; then it can
+    yield case([[frame(kinds["r-read"])], [frame(kinds["r-read"])]], rand=(0, 0))
+    yield case([[frame(kinds["reg"]), frame(kinds["r-read"])], [frame(kinds["r-write"])]], rand=(0, 21, 0, 22))
+
+
+def rand_routed_case(rng):
+    tags = lg.rand_tags(rng)
+    route = rng.choice([None, None, False, [[1, 0]], [[2, 5]]])
+    used = set()
+    kinds = None
+    sessions = []
+    nreq = 0
+    for _ in range(rng.randint(1, 6)):
+        frames = []
+        if rng.random() < 0.5:
+            frames.append({"sess": 0, "status": 0, "ctx": rand_ctx(rng, used), "opt": 0,
+                           "body": {"k": "reg", "proto": 1, "opts": 0, "extra": []}})
+        for _ in range(rng.choice([1, 1, 2, 3, 5])):
+            r = rng.random()
+            body = rand_send(rng, tags, route, rng.choice([0.0, 0.0, 0.3]))
+            if r < 0.7:      # forward it
+                rest = rng.choice([[], [], [list(x) for x in route] if route else [[1, 0]]])
+                if rng.random() < 0.08:
+                    rest = [[3, 3]]
+                cls, ins = (6, 1) if rng.random() < 0.92 else rng.choice([(2, 1), (6, 0), (9, 9)])
+                body["wrap"] = routed_wrap(rest, cls, ins)
+                if not rest and "req" in body and body["req"]["op"] == "rf":
+                    body["wrap"] = routed_wrap([list(x) for x in route] if route else [[1, 0]], cls, ins)
+            frames.append({"sess": rand_sess(rng), "status": 0 if rng.random() < 0.95 else 7, "ctx": rand_ctx(rng, used),
+                           "opt": 0, "body": body})
+            nreq += 1
+        sessions.append(frames)
+    nreg = sum(1 for fs in sessions for f in fs if f["body"]["k"] == "reg")
+    rand = []
+    for _ in range(nreg + nreq):
+        if rng.random() < 0.15:
+            rand.append(0)
+        rand.append(rng.randrange(1, 1 << 32))
+    if rng.random() < 0.05:
+        rand = rand[:rng.randint(0, 2)]
+    return {"budget": rng.choice([488, 488, 100]), "tags": tags, "route": route, "routes": TABLE, "rand": rand,
+            "cuts": rng.choice(["one", "one", "frames"]), "sessions": sessions}
 
 
 def small_cases():
@@ -594,14 +804,21 @@ def expectation(case, body):
     w = body["wrap"]
     exp = "reply"
     if w is not None:
+        route = [list(x) for x in w["route"]]
+        routed = bool(route) and route[0] in [list(x) for x in (case.get("routes") or [])]
+        if routed:
+            route = route[1:]        # forwarded to the route's device, which sees the rest of the route path
         cfg = case["route"]
-        if cfg is not None and w["route"] and [list(s) for s in (cfg or [])] != [list(s) for s in w["route"]]:
+        if cfg is not None and route and [list(x) for x in (cfg or [])] != route:
             return "refuse"
-        if w["cls"] != 6:
-            # an Unconnected Send is a service of the Connection Manager: to any other Object it cannot be routed
-            return "refuse"
-        if w["ins"] != 1:
-            exp = "either"       # the class-level instance, or an instance that may not exist
+        if not routed or route:      # (forwarded without a route path, the request travels bare)
+            if w["cls"] != 6:
+                # an Unconnected Send is a service of the Connection Manager: to any other Object it cannot be routed
+                return "refuse"
+            if w["ins"] != 1:
+                exp = "either"       # the class-level instance, or an instance that may not exist
+        if routed and not rand_suffices(case):
+            exp = "either"           # the forwarding connection needs a session handle of its own
     if "unk" in body:
         return "refuse"
     # a known service is a supported request whatever its own path names: an unknown Tag / Object is answered
@@ -609,8 +826,42 @@ def expectation(case, body):
     return exp
 
 
-def oracle_run(case, replies, label):
-    frames = case["frames"]
+def rand_suffices(case):
+    """the scripted random source holds a non-zero value for every Register Session and every forwarded request"""
+    need = 0
+    routes = [list(x) for x in (case.get("routes") or [])]
+    for frames in sessions_of(case):
+        for fr in frames:
+            b = fr["body"]
+            if b["k"] == "reg":
+                need += 1
+            elif b["k"] == "send" and b["wrap"] and b["wrap"]["route"] and list(b["wrap"]["route"][0]) in routes:
+                need += 1
+    return len([v for v in case["rand"] if v]) >= need
+
+
+def bundle_problem(req, item):
+    """a Multiple Service Packet reply (status 0): one reply per bundled request, in order, each with its request's
+    service code | 0x80"""
+    if len(item) < 6 or item[2] != 0:
+        return None                   # the bundle itself failed: a reply with a CIP failure status
+    body = item[4 + 2 * item[3]:]
+    n = int.from_bytes(body[:2], "little")
+    members = req["reqs"]
+    if n != len(members):
+        return f"{len(members)} bundled requests answered by {n} replies"
+    offs = [int.from_bytes(body[2 + 2 * k: 4 + 2 * k], "little") for k in range(n)] + [len(body)]
+    for k, m in enumerate(members):
+        if not (2 + 2 * n <= offs[k] < offs[k + 1] <= len(body)):
+            return f"bundled reply #{k} has no bytes (offsets {offs})"
+        got = body[offs[k]]
+        if got != (SVC[m["op"]] | 0x80):
+            return (f"bundled request #{k} ({m['op']}, service {SVC[m['op']]:#x}) answered by "
+                    f"{body[offs[k]:offs[k + 1]].hex()}: service code {got:#x} is not {SVC[m['op']]:#x} | 0x80")
+    return None
+
+
+def oracle_run(case, frames, replies, label):
     by_ctx = {fr["ctx"]: i for i, fr in enumerate(frames)}
     decoded = [decode_reply(b) for b in replies]
     idx = []
@@ -627,8 +878,7 @@ def oracle_run(case, replies, label):
             return f"{label}: reply to request #{idx[k]} sent after the reply to request #{idx[k - 1]}"
     k = 0
     ended = False        # the session may have ended (after a non-zero status / an unparsable frame)
-    nonzero = [v for v in case["rand"] if v]
-    regs = 0
+    enough = rand_suffices(case)
     for i, fr in enumerate(frames):
         body = fr["body"]
         kind = body["k"]
@@ -661,11 +911,10 @@ def oracle_run(case, replies, label):
             ended = True
             continue
         if kind == "reg":
-            regs += 1
             if r["status"] == 0:
                 if r["sess"] == 0:
                     return f"{label}: Register Session (request #{i}) returned session handle 0"
-            elif fr["status"] == 0 and regs <= len(nonzero):
+            elif fr["status"] == 0 and enough:
                 return f"{label}: Register Session (request #{i}) refused with status {r['status']:#x}"
         elif fr["status"] != 0:
             pass                     # a request whose own status field is set: the statement does not decide
@@ -685,6 +934,8 @@ def oracle_run(case, replies, label):
                 elif not sp[2][1][1] or sp[2][1][1][0] != (svc | 0x80):
                     got = sp[2][1][1][:1].hex() or "nothing"
                     good = f"data item starts with {got}, not service {svc:#x} | 0x80"
+                elif "req" in body and body["req"]["op"] == "mu":
+                    good = bundle_problem(body["req"], sp[2][1][1])
             if exp == "refuse" and r["status"] == 0:
                 return f"{label}: unsupported/unroutable request #{i} answered with encapsulation status 0"
             if exp == "reply" and r["status"] != 0:
@@ -708,9 +959,13 @@ class C06(Suite):
             "malformed item lists, unknown commands, short Register, Unregister), random contexts/handles/status/"
             "options, scripted random source (zeros, duplicates, exhaustion); whole stream in one recv, one recv per "
             "frame, random recv boundaries, (thorough) a real socket pair; and frame by frame through logix.process. "
+            "Routed: a UCMM routing table whose entry leads over real TCP to a server in this process; all sequences "
+            "of up to three one-request connections over forwarded (good, failing) and local requests, pairs written "
+            "together, random multi-connection sessions; attribute services to unknown objects bare and in bundles. "
             "non-trivial = >= 2 requests answered in a session that also contains a failing, unregistering or "
             "state-changing request; distinct by case")
-    assumptions = ["frames are complete (segmentation and truncation are C02's subject); one connection (C09)",
+    assumptions = ["frames are complete (segmentation and truncation are C02's subject); connections one after the other, "
+                   "never concurrent (C09); forwarding one hop, with a timeout the route's device always meets",
                    "embedded requests address tag-holding objects or nothing that exists (built-in Identity/TCPIP/Connection "
                    "Manager services, Forward Open and connected (SendUnitData with a connection id) transport are "
                    "outside the model); service codes < 0x80",
@@ -725,18 +980,25 @@ class C06(Suite):
     def cases(self, tier, rng):
         for c in small_cases():
             yield c
-        n = 260 if tier == "quick" else 6000
+        for c in routed_small_cases(full=(tier != "quick")):
+            yield c
+        n = 200 if tier == "quick" else 5000
         for _ in range(n):
             yield rand_case(rng, big=(tier == "thorough" and rng.random() < 0.1))
+        for _ in range(40 if tier == "quick" else 500):
+            yield rand_routed_case(rng)
 
     def search_cases(self, tier, rng):
         for c in small_cases():
             yield c
-        for _ in range(3000):
-            yield rand_case(rng, nmax=12)
+        for c in routed_small_cases():
+            yield c
+        for k in range(3000):
+            yield rand_case(rng, nmax=12) if k % 4 else rand_routed_case(rng)
 
     def impl(self, c):
-        socks = getattr(self, "tier", "quick") == "thorough" and len(c["frames"]) % 4 == 0
+        nf = sum(len(f) for f in sessions_of(c))
+        socks = getattr(self, "tier", "quick") == "thorough" and nf % 4 == 0
         return run_case(c, sockets=socks)
 
     def model_line(self, c):
@@ -747,28 +1009,36 @@ class C06(Suite):
             except Exception:
                 return "srv-setup-failed"
         route = "*" if c["route"] is None else route_line(c["route"])
+        routes = route_line(c.get("routes") or [])
         rand = ",".join(map(str, c["rand"])) if c["rand"] else "-"
-        frames = ";".join(frame_line(fr) for fr in c["frames"]) if c["frames"] else "-"
-        return f"sess 1 {route} {c['budget']} {c['tagline']} {rand} {frames}"
+        sessions = "!".join(";".join(frame_line(fr) for fr in frames) if frames else "-" for frames in sessions_of(c))
+        return f"sess 1 {route} {routes} {c['budget']} {c['tagline']} {rand} {sessions}"
 
     def known_key(self, c):
-        return json.dumps({k: c[k] for k in ("budget", "tags", "route", "rand", "frames")}, sort_keys=True)
+        return json.dumps({"budget": c["budget"], "tags": c["tags"], "route": c["route"], "rand": c["rand"],
+                           "routes": c.get("routes") or [], "sessions": sessions_of(c)}, sort_keys=True)
 
     def oracle(self, c, out):
         if out.startswith("harness-exception"):
             return out
         first, second, same = out.split(" || ")
-        r1, n1, e1 = parse_run(first)
-        why = oracle_run(c, r1, "all requests written before any reply is read")
-        if why:
-            return why
-        r2, n2, e2 = parse_run(second)
-        why = oracle_run(c, r2, "one request at a time")
-        if why:
-            return why
-        if r1 != r2:
-            k = next((j for j, (a, b) in enumerate(zip(r1, r2)) if a != b), min(len(r1), len(r2)))
-            return f"reply #{k} differs between pipelined and one-at-a-time delivery"
+        sessions = sessions_of(c)
+        runs1, runs2 = first.split(" // "), second.split(" // ")
+        if len(runs1) != len(sessions) or len(runs2) != len(sessions):
+            return "harness: runs do not match the sessions"
+        for j, frames in enumerate(sessions):
+            where = f"connection #{j}: " if len(sessions) > 1 else ""
+            r1, n1, e1 = parse_run(runs1[j])
+            why = oracle_run(c, frames, r1, where + "all requests written before any reply is read")
+            if why:
+                return why
+            r2, n2, e2 = parse_run(runs2[j])
+            why = oracle_run(c, frames, r2, where + "one request at a time")
+            if why:
+                return why
+            if r1 != r2:
+                k = next((x for x, (a, b) in enumerate(zip(r1, r2)) if a != b), min(len(r1), len(r2)))
+                return f"{where}reply #{k} differs between pipelined and one-at-a-time delivery"
         if same != "same":
             return f"replies depend on how the stream is delivered: {same[:200]}"
         return None
@@ -776,11 +1046,12 @@ class C06(Suite):
     def nontrivial(self, c, out):
         if out.startswith("harness-exception"):
             return None
-        r1, _n, _e = parse_run(out.split(" || ")[0])
+        r1 = [b for run in out.split(" || ")[0].split(" // ") for b in parse_run(run)[0]]
         if len(r1) < 2:
             return None
-        kinds = {f["body"]["k"] for f in c["frames"]}
-        ops = {f["body"]["req"]["op"] for f in c["frames"] if "req" in f["body"]}
+        allf = [f for frames in sessions_of(c) for f in frames]
+        kinds = {f["body"]["k"] for f in allf}
+        ops = {f["body"]["req"]["op"] for f in allf if "req" in f["body"]}
         failing = any(decode_reply(b)["status"] for b in r1) or kinds & {"unreg", "xcmd", "regshort"}
         if failing or ops & {"wt", "wf", "ss", "mu"}:
             return self.known_key(c)
@@ -789,31 +1060,57 @@ class C06(Suite):
     def classify(self, c, out):
         if out.startswith("harness-exception"):
             return "harness-exception"
+        sessions = sessions_of(c)
+        if len(sessions) > 1 or c.get("routes"):
+            nrouted = sum(1 for frames in sessions for f in frames
+                          if f["body"]["k"] == "send" and f["body"]["wrap"] and f["body"]["wrap"]["route"]
+                          and list(f["body"]["wrap"]["route"][0]) in [list(x) for x in c.get("routes") or []])
+            nfail = sum(1 for run in out.split(" || ")[0].split(" // ") for b in parse_run(run)[0]
+                        if decode_reply(b)["status"])
+            return f"connections={min(len(sessions), 4)}{'+' if len(sessions) > 4 else ''} routed={min(nrouted, 5)} failed={min(nfail, 3)}"
         first = out.split(" || ")[0]
         r1, n, e = parse_run(first)
-        nf = len(c["frames"])
+        nf = len(sessions[0])
         size = "1" if nf == 1 else "2" if nf == 2 else "3-8" if nf <= 8 else "9-20" if nf <= 20 else "21-40"
         last = "status" if r1 and decode_reply(r1[-1])["status"] else ("unreg" if e == "closed" else e)
         cuts = c.get("cuts", "one")
         return f"frames={size} end={last} recv={'cuts' if isinstance(cuts, list) else cuts}"
 
     def shrink(self, c):
-        fs = c["frames"]
-        for i in range(len(fs)):
-            if len(fs) > 1:
-                yield dict(c, frames=fs[:i] + fs[i + 1:])
+        c = {k: v for k, v in c.items() if k not in ("tagline", "addrs")}
+        if "sessions" in c:
+            ss = c["sessions"]
+            for j in range(len(ss)):
+                if len(ss) > 1:
+                    yield dict(c, sessions=ss[:j] + ss[j + 1:])
+            for j, fs in enumerate(ss):
+                for sub in self.shrink_frames(fs):
+                    if sub:
+                        yield dict(c, sessions=ss[:j] + [sub] + ss[j + 1:])
+            if len(ss) == 1 and not c.get("routes"):
+                yield dict({k: v for k, v in c.items() if k not in ("sessions", "routes")}, frames=ss[0])
+        else:
+            for sub in self.shrink_frames(c["frames"]):
+                if sub:
+                    yield dict(c, frames=sub)
         if c.get("cuts", "one") != "one":
             yield dict(c, cuts="one")
+        if len(c["tags"]) > 1:
+            used = json.dumps(sessions_of(c)).lower()
+            for i, t in enumerate(c["tags"]):
+                if json.dumps(t["name"])[1:-1].lower() not in used:
+                    yield dict(c, tags=c["tags"][:i] + c["tags"][i + 1:])
+
+    @staticmethod
+    def shrink_frames(fs):
+        for i in range(len(fs)):
+            if len(fs) > 1:
+                yield fs[:i] + fs[i + 1:]
         for i, fr in enumerate(fs):
             b = fr["body"]
             if b["k"] == "send" and "req" in b and b["req"]["op"] == "mu" and len(b["req"]["reqs"]) > 1:
                 for j in range(len(b["req"]["reqs"])):
                     nb = dict(b, req=dict(b["req"], reqs=b["req"]["reqs"][:j] + b["req"]["reqs"][j + 1:]))
-                    yield dict(c, frames=fs[:i] + [dict(fr, body=nb)] + fs[i + 1:])
+                    yield fs[:i] + [dict(fr, body=nb)] + fs[i + 1:]
             if fr["opt"] or fr["status"]:
-                yield dict(c, frames=fs[:i] + [dict(fr, opt=0, status=0)] + fs[i + 1:])
-        if len(c["tags"]) > 1:
-            used = json.dumps(fs).lower()
-            for i, t in enumerate(c["tags"]):
-                if json.dumps(t["name"])[1:-1].lower() not in used:
-                    yield dict(c, tags=c["tags"][:i] + c["tags"][i + 1:])
+                yield fs[:i] + [dict(fr, opt=0, status=0)] + fs[i + 1:]
